@@ -223,6 +223,7 @@ def specs(
     origin_kinds=None,
     force_delta_phi=False,
     growth_log=None,
+    long_links=True,
 ):
     nodes, edges, origin, dest = draw(topologies(max_ops=max_ops, min_ops=min_ops, log=growth_log))
     shared = draw(st.integers(0, 2)) == 0
@@ -233,12 +234,14 @@ def specs(
         if shared:
             p["lam"] = draw(st.integers(1, 5))
         N = draw(st.integers(1, max_segments))
+        if long_links and draw(st.integers(0, 11)) == 0:
+            N = draw(st.sampled_from([9, 11, 12]))  # two-digit segment indices, larger index sets
         vsl = alpha = None
         if draw(st.integers(0, vsl_prob - 1)) == 0:
             vsl = sorted(draw(st.sets(st.integers(0, N - 1), max_size=N)))
             alpha = draw(fl(0, 0.5))
         links.append(
-            dict(id=f"L{k}", name=f"L{k}", up=u, down=v, N=N, turnrate=draw(pos(0.05, 5)), vsl=vsl, alpha=alpha, **p)
+            dict(id=f"L{k}", name=f"L{k}", up=u, down=v, N=N, turnrate=draw(st.one_of(pos(0.05, 5), pos(0.05, 5), st.integers(1, 4))), vsl=vsl, alpha=alpha, **p)
         )
     origins = []
     for k, (n, r) in enumerate(origin.items()):
@@ -278,7 +281,7 @@ def specs(
 
 
 @st.composite
-def states(draw, spec, zero_bias=False, negative=False, finite_only=False):
+def states(draw, spec, zero_bias=False, negative=False, finite_only=False, allow_singular=False):
     """Admissible state/control/disturbance values; the model's own 0/0 excluded by construction."""
 
     def val(lo, hi, specials=()):
@@ -317,7 +320,7 @@ def states(draw, spec, zero_bias=False, negative=False, finite_only=False):
             dn = S.in_links(spec, d["node"])
             hi = dn[0]["rho_max"] if dn else 300.0
             stt[d["id"]] = dict(d=[draw(fl(0, hi))])
-    if not negative:
+    if not negative and not allow_singular:
         fix_singular(draw, spec, stt)
     return stt
 
